@@ -19,7 +19,7 @@ REQUIRED_MONITORS = ["logexp", "explog", "spurrier", "TTinv", "spin", "se3.logex
 META = {
     "level_text": "Exploration: round-trip identities evaluated on the return values of the real maps over hostile inputs (half turns, near half turns, tiny angles, all Spurrier branches) plus agreement with an independent 50-digit model. Held on the inputs generated.",
     "level_note": "float64; tolerances as listed in assumptions; all four Spurrier branches must be observed (else inconclusive).",
-    "technique": "runtime return-value monitors with mpmath reference model",
+    "technique": "runtime return-value monitors with mpmath reference model + representation twins (strided / read-only / Fortran-ordered / integer arguments)",
 }
 KINDS = ["logexp", "explog", "spurrier", "TTinv", "spin", "se3", "purity"]
 
